@@ -88,7 +88,7 @@ mk('dataobjects.fromsource.propagation', ['C12'], 'xmlschema/dataobjects.py', 'D
 
 
 # ---- documents.get_context: the resource is built with exactly the resource options of the caller
-t = Target('documents.get_context.propagation', ['C12', 'C04'], 'xmlschema/documents.py', 'get_context',
+t = Target('documents.get_context.propagation', ['C12', 'C04', 'C13'], 'xmlschema/documents.py', 'get_context',
            note='a non-resource document is wrapped in XMLResource(xml_document, **{k: kwargs[k] for k in kwargs if k in RESOURCE_KWARGS}) and RESOURCE_KWARGS '
                 'contains every security option; an XMLResource passes through unchanged',
            assumes=['syntactic obligation on the real AST; RESOURCE_KWARGS is read from the imported module'])
